@@ -17,7 +17,9 @@ from .. import seams
 from .. import spaces as SP
 
 GARBAGE = ('nan', 'huge', 'stale', 'inf', 'zero')
-DTYPES = ['float64', 'float64', 'float32', 'complex128', 'int64']
+DTYPES = ['float64'] * 4 + ['float32', 'float32', 'complex128', 'complex128',
+                             'int64', 'int64', 'complex64', 'int32', 'int8',
+                             'uint8', 'bool', 'float16', '>f8', '>i4']
 HANDLES = ('arr', 'elem', 'view', 'tens')
 METHODS = ('reduce', 'accumulate', 'outer', 'at', 'reduceat')
 
@@ -32,13 +34,13 @@ def generate(rng, tier):
     dtype = rng.choice(DTYPES)
     nd = rng.choice([1, 1, 2])
     shape = [rng.randint(1, 5) for _ in range(nd)]
-    if kind == 'discr' and dtype == 'int64':
+    if kind == 'discr' and np.dtype(dtype).kind not in 'fc':
         dtype = 'float64'
     sp = {'kind': kind, 'dtype': dtype, 'shape': shape}
     if kind == 'power':
         sp['n'] = rng.randint(1, 3)
         sp['base'] = rng.choice(['tensor', 'discr'])
-        if sp['base'] == 'discr' and dtype == 'int64':
+        if sp['base'] == 'discr' and np.dtype(dtype).kind not in 'fc':
             sp['dtype'] = 'float64'
     nst = rng.randint(2, 4)
     sp['layouts'] = [rng.choice(['C', 'C', 'F', 'strided']) for _ in range(nst)]
